@@ -56,3 +56,18 @@ def guards_converter(f):
 guards_converter.all_returns = True
 guards_converter.crates = ('slicec_bin',)
 guards_converter.extra_calls = ('push', 'find', 'map', 'unwrap')
+
+
+def _lexer_scope(path):
+    def scope(f):
+        return (f.span.file or '') == path and not f.generated
+    scope.all_returns = True
+    scope.extra_calls = ('advance_buffer', 'advance_to_end_of_line', 'skip_whitespace', 'skip_inline_whitespace', 'read_alphanumeric', 'read_identifier', 'read_string_literal',
+                         'read_line_comment', 'consume_block_comment', 'check_if_keyword', 'return_simple_token', 'read_tag_keyword', 'lex_message', 'lex_tag_component',
+                         'lex_next_slice_token', 'lex_next_preprocessor_token', 'switch_to_next_line', 'create_source_block_token')
+    return scope
+
+
+guards_slice_lexer = _lexer_scope('slicec/src/parsers/slice/lexer.rs')
+guards_comment_lexer = _lexer_scope('slicec/src/parsers/comments/lexer.rs')
+guards_preprocessor_lexer = _lexer_scope('slicec/src/parsers/preprocessor/lexer.rs')
